@@ -26,10 +26,13 @@ func RunATPServer(
 		session.run()
 	}()
 
+	vh("s.closure.begin")
 	workError := session.handleClosure()
 
 	// Ensure that the session is done.
+	vh("s.return.pre")
 	session.wg.Wait()
+	vh("s.return", "errors", len(workError))
 	return workError
 }
 
@@ -83,7 +86,9 @@ func initializeATPServerSession(
 }
 
 func (s *atpServerSession) sendRuntimeMessage(msgID uint32, runID string, message any) error {
+	vh("s.send.pre", "id", msgID, "run", runID)
 	s.encoderMutex.Lock()
+	vh("s.send", "id", msgID, "run", runID)
 	doneChannel := make(chan error, 1)
 	go func() {
 		defer close(doneChannel)
@@ -96,6 +101,7 @@ func (s *atpServerSession) sendRuntimeMessage(msgID uint32, runID string, messag
 	defer s.encoderMutex.Unlock()
 	select {
 	case err := <-doneChannel:
+		vh("s.sent", "id", msgID, "run", runID, "err", err)
 		return err
 	case <-time.After(time.Second * 60):
 		return fmt.Errorf("send timeout exceeded while sending message ID %q for run id %q", msgID, runID)
@@ -107,12 +113,15 @@ func (s *atpServerSession) handleClosure() []*ServerError {
 	var errors []*ServerError
 closeLoop:
 	for {
+		vh("s.closure.select.pre")
 		select {
 		case errorSent, wasError := <-s.workDone:
 			if !wasError {
+				vh("s.closure.exit", "why", "closed")
 				break closeLoop
 			}
 			errors = append(errors, &errorSent)
+			vh("s.closure.recv", "run", errorSent.RunID, "step", errorSent.StepFatal, "server", errorSent.ServerFatal)
 			err := s.sendRuntimeMessage(
 				MessageTypeError,
 				errorSent.RunID,
@@ -128,6 +137,7 @@ closeLoop:
 			}
 			// If either the error report sending failed, or the error was server fatal, stop here.
 			if err != nil || errorSent.ServerFatal {
+				vh("s.closure.fatal", "senderr", err != nil)
 				err = s.stdinCloser.Close()
 				if err != nil {
 					return append(errors, &ServerError{
@@ -141,6 +151,7 @@ closeLoop:
 				}
 			}
 		case <-s.ctx.Done():
+			vh("s.closure.exit", "why", "ctx")
 			// Likely got sigterm. Just close. Ideally gracefully.
 			break closeLoop
 		}
@@ -155,7 +166,9 @@ func (s *atpServerSession) runATPReadLoop() {
 	for {
 		// First, decode the message
 		// Note: This blocks. To abort early, close stdin.
+		vh("s.recv.pre")
 		if err := s.cborStdin.Decode(&runtimeMessage); err != nil {
+			vh("s.recv", "err", err)
 			// Failed to decode. If it's done, that's okay. If not, there's a problem.
 			done := false
 			select {
@@ -164,15 +177,18 @@ func (s *atpServerSession) runATPReadLoop() {
 				// Prevents it from blocking
 			}
 			if !done {
+				vh("s.errq.pre")
 				s.workDone <- ServerError{
 					RunID:       "",
 					Err:         fmt.Errorf("failed to read or decode runtime message: %w", err),
 					StepFatal:   true,
 					ServerFatal: true,
 				}
+				vh("s.errq")
 			} // If done, it didn't get the work done message, which is not ideal.
 			return
 		}
+		vh("s.recv", "id", runtimeMessage.MessageID, "run", runtimeMessage.RunID)
 		done := s.onRuntimeMessageReceived(&runtimeMessage)
 		if done {
 			return
@@ -188,12 +204,14 @@ func (s *atpServerSession) onRuntimeMessageReceived(message *DecodedRuntimeMessa
 	case MessageTypeWorkStart:
 		var workStartMsg WorkStartMessage
 		if err := cbor.Unmarshal(message.RawMessageData, &workStartMsg); err != nil {
+			vh("s.errq.pre")
 			s.workDone <- ServerError{
 				RunID:       runID,
 				Err:         fmt.Errorf("failed to decode work start message: %w", err),
 				StepFatal:   true,
 				ServerFatal: false,
 			}
+			vh("s.errq")
 			return false
 		}
 		s.handleWorkStartMessage(runID, workStartMsg)
@@ -201,12 +219,14 @@ func (s *atpServerSession) onRuntimeMessageReceived(message *DecodedRuntimeMessa
 	case MessageTypeSignal:
 		var signalMessage SignalMessage
 		if err := cbor.Unmarshal(message.RawMessageData, &signalMessage); err != nil {
+			vh("s.errq.pre")
 			s.workDone <- ServerError{
 				RunID:       runID,
 				Err:         fmt.Errorf("failed to decode signal message: %w", err),
 				StepFatal:   false,
 				ServerFatal: false,
 			}
+			vh("s.errq")
 			return false
 		}
 		s.handleSignalMessage(runID, signalMessage)
@@ -215,7 +235,9 @@ func (s *atpServerSession) onRuntimeMessageReceived(message *DecodedRuntimeMessa
 	case MessageTypeClientDone:
 		// It's now safe to close the channel
 		err := s.stdinCloser.Close()
+		vh("s.stdin.close", "why", "clientdone")
 		if err != nil {
+			vh("s.errq.pre")
 			s.workDone <- ServerError{
 				// this error does not apply to a specific run id
 				RunID:       "",
@@ -223,9 +245,11 @@ func (s *atpServerSession) onRuntimeMessageReceived(message *DecodedRuntimeMessa
 				StepFatal:   true,
 				ServerFatal: true,
 			}
+			vh("s.errq")
 		}
 		return true // Client done, so terminate loop
 	default:
+		vh("s.errq.pre")
 		s.workDone <- ServerError{
 			// this error does not apply to a specific run id
 			RunID: "",
@@ -234,12 +258,14 @@ func (s *atpServerSession) onRuntimeMessageReceived(message *DecodedRuntimeMessa
 			StepFatal:   false,
 			ServerFatal: false,
 		}
+		vh("s.errq")
 		return false
 	}
 }
 
 func (s *atpServerSession) handleWorkStartMessage(runID string, workStartMsg WorkStartMessage) {
 	if runID == "" || workStartMsg.StepID == "" {
+		vh("s.errq.pre")
 		s.workDone <- ServerError{
 			RunID: "",
 			Err: fmt.Errorf("missing runID (%s) or stepID in work start message (%s)",
@@ -247,10 +273,12 @@ func (s *atpServerSession) handleWorkStartMessage(runID string, workStartMsg Wor
 			StepFatal:   true,
 			ServerFatal: false,
 		}
+		vh("s.errq")
 		return
 	}
 	s.runningSteps[runID] = workStartMsg.StepID
 	s.wg.Add(1) // Wait until the step is done
+	vh("s.start", "run", runID, "step", workStartMsg.StepID)
 	go func() {
 		s.runStep(runID, workStartMsg)
 		s.wg.Done()
@@ -259,25 +287,30 @@ func (s *atpServerSession) handleWorkStartMessage(runID string, workStartMsg Wor
 
 func (s *atpServerSession) handleSignalMessage(runID string, signalMessage SignalMessage) {
 	if runID == "" {
+		vh("s.errq.pre")
 		s.workDone <- ServerError{
 			RunID:       "",
 			Err:         fmt.Errorf("RunID missing for signal '%s' in signal message", signalMessage.SignalID),
 			StepFatal:   false,
 			ServerFatal: false,
 		}
+		vh("s.errq")
 		return
 	}
 	stepID, found := s.runningSteps[runID]
 	if !found {
+		vh("s.errq.pre")
 		s.workDone <- ServerError{
 			RunID:       runID,
 			Err:         fmt.Errorf("unknown step with run ID '%s' in signal mesage", runID),
 			StepFatal:   false,
 			ServerFatal: false,
 		}
+		vh("s.errq")
 		return
 	}
 	s.wg.Add(1) // Wait until the signal handler is done
+	vh("s.signal", "run", runID, "signal", signalMessage.SignalID)
 	go func() {
 		if err := s.pluginSchema.CallSignal(
 			s.ctx,
@@ -286,6 +319,7 @@ func (s *atpServerSession) handleSignalMessage(runID string, signalMessage Signa
 			signalMessage.SignalID,
 			signalMessage.Data,
 		); err != nil {
+			vh("s.errq.pre")
 			s.workDone <- ServerError{
 				RunID: runID,
 				Err: fmt.Errorf("failed while running signal ID %s: %w",
@@ -293,6 +327,7 @@ func (s *atpServerSession) handleSignalMessage(runID string, signalMessage Signa
 				StepFatal:   false,
 				ServerFatal: false,
 			}
+			vh("s.errq")
 		}
 		s.wg.Done()
 	}()
@@ -300,19 +335,23 @@ func (s *atpServerSession) handleSignalMessage(runID string, signalMessage Signa
 
 func (s *atpServerSession) run() {
 	defer func() {
+		vh("s.run.exit.pre")
 		s.runDoneChannel <- true
 		close(s.workDone)
+		vh("s.errq.close")
 		s.wg.Done()
 	}()
 
 	err := s.sendInitialMessagesToClient()
 	if err != nil {
+		vh("s.errq.pre")
 		s.workDone <- ServerError{
 			RunID:       "",
 			Err:         fmt.Errorf("error while sending initial messages to client (%w)", err),
 			StepFatal:   true,
 			ServerFatal: true,
 		}
+		vh("s.errq")
 		return
 	}
 
@@ -325,22 +364,29 @@ func (s *atpServerSession) runStep(runID string, req WorkStartMessage) {
 	defer func() {
 		// Handle and properly report panics
 		if r := recover(); r != nil {
+			vh("s.step.panic", "run", runID)
+			vh("s.errq.pre")
 			s.workDone <- ServerError{
 				RunID:       runID,
 				Err:         fmt.Errorf("panic while running step with Run ID '%s': (%v)", runID, r),
 				StepFatal:   true,
 				ServerFatal: false,
 			}
+			vh("s.errq")
 		}
 	}()
+	vh("s.step.begin", "run", runID)
 	outputID, outputData, err := s.pluginSchema.CallStep(s.ctx, runID, req.StepID, req.Config)
+	vh("s.step.end", "run", runID, "err", err)
 	if err != nil {
+		vh("s.errq.pre")
 		s.workDone <- ServerError{
 			RunID:       runID,
 			Err:         fmt.Errorf("error calling step (%w)", err),
 			StepFatal:   true,
 			ServerFatal: false,
 		}
+		vh("s.errq")
 		return
 	}
 	// Lastly, send the work done message.
